@@ -20,3 +20,6 @@ def load_all():
     _loaded.append(1)
     for m in MODULES:
         importlib.import_module("contracts." + m)
+    from pyvc import contracts as _C
+    if _C.SHAPE_CONFLICTS:
+        raise RuntimeError("conflicting shape declarations (class, field, first, second): %r" % (_C.SHAPE_CONFLICTS,))
